@@ -447,7 +447,7 @@ func (e *Engine) loadContractFile(path, pkgShort string) error {
 			}
 			ord++
 			cl := &Clause{Tags: parseTags(m[2]), E: ex, Text: m[3], Ord: ord, File: path, Line: l.line}
-			if m[1] == "ensures" && (strings.Contains(m[3], "tainted(") || strings.Contains(m[3], "taintkeys(") || strings.Contains(m[3], "untainted")) {
+			if m[1] == "ensures" && (strings.Contains(m[3], "tainted(") || strings.Contains(m[3], "maytaint(") || strings.Contains(m[3], "taintkeys(") || strings.Contains(m[3], "untainted")) {
 				cur.TaintAware = true
 			}
 			switch m[1] {
